@@ -37,6 +37,29 @@ def directed_renewal(r):
     return dict(cfg=tuple(cfg), insts=[(1, conv.s_service(svc), rejects)], draws=[0] * 8, events=events, end=max(t0 + ttl1 * T, t1 + (3 if ttl2 == 3 else 0) * T) + 2 * T, rev=r.random() < 0.3, fuel=20000)
 
 
+def directed_same_host(r):
+    """Two subscribers whose SD addresses share the host and differ in the port (and one on another host) hold
+    subscriptions; one of them reveals a reboot (alone, or together with a new Subscribe): only ITS subscriptions go."""
+    from .. import conv
+    T = scen.T
+    cfg = list(scen.timings(r))
+    cfg[6] = T
+    cfg[11] = r.choice([0, 5 * scen.MS])
+    svc = scen.SERVICES[0]
+    peers = {a: scen.Peer(a) for a in (1, 101, 2)}
+    events = [(0, (1, [17, 1])), (0, (1, [0]))]
+    t = T // 2
+    for a in r.sample([1, 101, 2], 3):
+        t += r.choice([1, T // 16])
+        events.append((t, (0, a, False, peers[a].datagram([scen.sub_entry(r, svc, r.choice([5, 6]), r.choice([3, 0xFFFFFF, 0xFFFFFF]), 0, 1, ep_n=a)], False))))
+    who = r.choice([1, 101])
+    t += r.choice([T // 8, T // 2])
+    peers[who].reboot()
+    es = [scen.sub_entry(r, svc, 5, r.choice([3, 0xFFFFFF]), 0, 1, ep_n=who)] if r.random() < 0.5 else []
+    events.append((t, (0, who, False, peers[who].datagram(es, False))))
+    return dict(cfg=tuple(cfg), insts=[(1, conv.s_service(svc), [])], draws=[0] * 8, events=events, end=t + 5 * T, rev=r.random() < 0.3, fuel=20000)
+
+
 def run(ctx):
     r = ctx.rng
     quick = ctx.tier == "quick"
@@ -46,7 +69,7 @@ def run(ctx):
                 "implementation trace judged by check_C06; non-trivial = distinct scenario producing at least one event")
     ctx.assumptions = ["the server listener's decision is a function of the eventgroup id (scenario input)"]
     n = 300 if quick else 12000
-    scs = stackprop.corpus_scenarios("C06") + [directed_renewal(r) if k % 10 == 9 else scen.server_scenario(r) for k in range(n)]
+    scs = stackprop.corpus_scenarios("C06") + [directed_renewal(r) if k % 10 == 9 else directed_same_host(r) if k % 10 == 4 else scen.server_scenario(r) for k in range(n)]
     if not quick:
         scs += [scen.server_scenario(r, small=True, length=r.randint(1, 5)) for _ in range(3000)]
     stackprop.run_scenarios(ctx, scs, 3006, CODES, what="server subscriptions")
